@@ -61,6 +61,18 @@ CHECKS = {
             "located error on char boundaries, node spans nested in parents, identifier/literal spans re-lex to themselves.",
             "Texts longer than the bounds are covered only through the edit neighbourhoods; 8 MiB stack as in the test suite.",
             "DESIGN.md#c05"),
+    "C07": ("exploration",
+            "bounded-exhaustive: every discovered builtin/method x all argument tuples of arity <=2 (3) from a hostile catalogue; all evaluation histories up to length 2/3 over a failure-mode alphabet on one evaluator",
+            "Part 1: every global of the extended environment and every attribute of 26 witness values (162 callables, "
+            "discovered via Globals::names and dir) is called with ALL tuples of arity 0, 1, 2 over a 37-value catalogue (extreme "
+            "ints, nan/inf, None, astral string, self-containing list, lambdas, ...) plus keyword / *args / **kwargs shapes, and "
+            "every operator, index, slice, attribute, comprehension and format form on catalogue pairs: a value or an error "
+            "with an in-file span and resolvable call stack, never a panic or abort (child processes). Part 2: all sequences "
+            "of length <=2 (quick) / 3 over 17 snippets covering each way an evaluation can fail, on ONE evaluator and module: "
+            "outcome equals the snippet run alone, call stack empty, probe program equals a fresh evaluator, variables of earlier "
+            "successes intact.",
+            "Results larger than memory are out of scope (no `*`/`<<` with huge operands). Known finding: debug() on a cyclic value.",
+            "DESIGN.md#c07"),
     "C08": ("exploration",
             "complete enumeration of the finite signature x call-shape space on every call path, differential against CPython performing the same call",
             "All parameter lists up to the tier bound over the six parameter kinds (plus 15 illegal orders) x all call shapes "
